@@ -112,9 +112,9 @@ func walkAll(pj *simdjson.ParsedJson) (out string) {
 
 // C05: robustness — outcome class only, with guard pages, watchdog and goroutine accounting
 func suiteCrash(rn *runner, r *rng, tier string) {
-	n := 6000
+	n := 2500
 	if tier == "thorough" {
-		n = 250000
+		n = 120000
 	}
 	var reuse *simdjson.ParsedJson
 	baseG := runtime.NumGoroutine()
